@@ -7,7 +7,7 @@ def check(ctx, rep):
     rep.explanation = (
         "R09.1 confinement: the `forever` attribute influences no start condition, no candidate set and no "
         "wait argument. R09.2 both sides of the completion test count non-forever jobs only. R09.3 the "
-        "success exit cancels and awaits what is still pending (EXIT automaton), then shuts down. R09.6 the `forever` flag is what the caller gave. R09.7 (= R01.7) e.g. `forever=` of a nested scheduler.")
+        "success exit cancels and awaits what is still pending (EXIT automaton), then shuts down. R09.6 the `forever` flag is what the caller gave. R09.7 (= R01.7) e.g. `forever=` of a nested scheduler. R09.8 a forever job that obtains its slot once the last regular job is over does not start: the wrapper tests a flag of the window before the body, and the window - which counts the members that do not run forever, one down at each completion - raises it when that count reaches zero.")
     rep.declined = ["instants"]
     rep.trusted = ["T1", "T3"]
     runrules.forever_confined(ctx, rep, "R09.1")
@@ -18,3 +18,4 @@ def check(ctx, rep):
     common.wrap_typestate(ctx, rep, "R09.5")
     predicates.config_verbatim(ctx, rep, "R09.6", ('forever',))
     predicates.constructor_forwarding(ctx, rep, "R09.7")
+    common.window_gate(ctx, rep, "R09.8", "endofrun")
